@@ -176,6 +176,13 @@ func (c *RegConfig) ParseOrResolveBlocklisted(provided string) (string, bool) {
 		// and no subnet of the blocklist can contain it.
 		return "", lookup
 	}
+	if addr.Zone != "" && addr.IP.To4() != nil {
+		// A zone belongs to an IPv6 address. An IPv4-mapped literal that carries
+		// one ("::ffff:192.0.2.1%eth0") prints as "192.0.2.1%eth0", which is not
+		// an address: net.Dial would look it up as a host name when the
+		// connection is made.
+		return "", lookup
+	}
 	if c.isBlocklistedCovertAddr(addr.IP) {
 		return "", lookup
 	}
